@@ -19,14 +19,12 @@ SPELLINGS = ["relative", "glob-dstar", "glob-star"]
 
 
 def candidate_seeds():
-    """One seed per codemod (the first one whose multi-site program can be built)."""
+    """codemod -> its trigger seeds in corpus order; the first one that yields single-line sites is used."""
     out = {}
     for s in progspace.load_seeds():
-        if s.kind == "trigger" and s.batchable and s.compiles and s.codemod not in out:
-            if s.codemod in ("pixee:python/order-imports",):
-                continue
-            out[s.codemod] = s
-    return out
+        if s.kind == "trigger" and s.batchable and s.compiles and s.codemod not in ("pixee:python/order-imports",):
+            out.setdefault(s.codemod, []).append(s)
+    return out  # corpus order
 
 
 def spell(spelling, path, line):
@@ -39,8 +37,19 @@ def spell(spelling, path, line):
 
 
 def eval_case(case):
-    seed_id, n, mode, spelling = case
-    seed = next(s for s in progspace.load_seeds() if s.id == seed_id)
+    """case = (codemod id, n, mode, spelling): the codemod's seeds are tried in order until one gives single-line sites."""
+    cm_id, n, mode, spelling = case
+    last = ([], {"usable": False, "why": "no seed"})
+    for seed in candidate_seeds().get(cm_id, [])[:6]:
+        res = _eval_seed(seed, n, mode, spelling)
+        if res[1].get("usable"):
+            return res
+        last = res
+    return last
+
+
+def _eval_seed(seed, n, mode, spelling):
+    seed_id = seed.id
     ms = multisite.build(seed, n)
     if ms is None:
         return [], {"usable": False, "why": "multi-site program could not be built"}
@@ -83,8 +92,8 @@ def eval_case(case):
     out = []
     tag = f"{cm}|{seed_id}"
     # does the reference itself name the edited lines? (single-line edits; head edits such as added imports may add entries)
-    ref_site_changes = sorted(l for l in ref_changes if l in site_lines)
-    if ref_site_changes != sorted(site_lines):
+    ref_site_changes = sorted({l for l in ref_changes if l in site_lines})
+    if ref_site_changes != sorted(set(site_lines)):
         out.append((f"{tag}|change-line-not-the-edited-line", f"sites edited at lines {site_lines} but change entries name {ref_changes}"))
     # all subsets, each in its own file (root level and sub-directory alternate)
     subsets = [s for r in range(n + 1) for s in itertools.combinations(range(n), r)]
@@ -118,8 +127,8 @@ def eval_case(case):
             out.append((f"{tag}|{mode}|{kind}", f"[{spelling}, {loc}] {path}: patterns {[p for p in pats if p.startswith(path) or path.rsplit('/', 1)[-1] in p]} -> permitted sites {exp}, rewritten sites {got} (site lines {site_lines})"))
             continue
         nontrivial += 1
-        named = sorted(l for l in changes_by_path.get(path, []) if l in site_lines)
-        want = sorted(site_lines[c] for c in exp)
+        named = sorted({l for l in changes_by_path.get(path, []) if l in site_lines})
+        want = sorted({site_lines[c] for c in exp})
         if named != want:
             out.append((f"{tag}|{mode}|change-lines-differ", f"[{spelling}, {loc}] {path}: rewritten site lines {want} but change entries name {sorted(changes_by_path.get(path, []))}"))
     return sorted(set(out)), {"usable": True, "files": len(expect), "nontrivial": nontrivial}
@@ -128,10 +137,10 @@ def eval_case(case):
 def cases(tier):
     n = 2 if tier == "quick" else 3
     out = []
-    for cm, s in sorted(candidate_seeds().items()):
+    for cm in sorted(candidate_seeds()):
         for mode in ("exclude", "include"):
             for sp in SPELLINGS if tier == "thorough" else SPELLINGS[:2]:
-                out.append((s.id, n, mode, sp))
+                out.append((cm, n, mode, sp))
     return out
 
 
@@ -142,7 +151,7 @@ def explore(tier, seed):
     usable = files = nontrivial = 0
     codemods = set()
     for case, (found, info) in zip(cs, res):
-        cm = next(s.codemod for s in progspace.load_seeds() if s.id == case[0])
+        cm = case[0]
         if not info.get("usable"):
             unusable[cm] = info.get("why")
             continue
@@ -170,7 +179,7 @@ def explore(tier, seed):
         "transitions": 2 * usable,
         "traces_validated_against_impl": files + usable,
         "exhaustive": True,
-        "samples": [{"seed": cs[0][0], "sites": cs[0][1], "mode": cs[0][2], "spelling": cs[0][3]}],
+        "samples": [{"codemod": cs[0][0], "sites": cs[0][1], "mode": cs[0][2], "spelling": cs[0][3]}],
         "cases": len(cs),
         "cases_usable": usable,
         "codemods_with_single_line_sites": sorted(codemods),
